@@ -2,18 +2,23 @@
 
 The REAL gear.database (`Database`, `Transaction`, `@transaction`, `retry_transient_mysql_errors`) runs over the fake aiomysql
 pool of harness/minisql/fakepool.py backed by minisql on a 2-table schema; a fault (pymysql exception class, code) is injected
-at a chosen statement index of a chosen attempt; the retry sleeps run on aloop.VLoop's virtual clock.  The same case goes to
+at a chosen statement index of a chosen attempt; the retry sleeps run on aloop.VLoop's virtual clock.  Statements are issued through
+every Transaction.execute_* flavour, with and without a `query_name` (with one, cursor.execute runs inside the REAL
+gear.metrics.PrometheusSQLTimer; only the prometheus_client metric objects behind it are inert stubs), inside a @transaction body
+or as a single Database.execute_* call.  The same case goes to
 the Lean model `HailVerif.TxRetry.run` (Driver/C27.lean); outputs are compared line by line, and the oracle checks the property
 itself on the real run: retried <=> the error is one of the property's transient conditions; tables afterwards = initial tables
 with the body applied exactly once (success) or the initial tables (gave up).
 """
+import ast
 import asyncio
 import json
 import logging
+import os
 import random
 
 from .. import aloop, loader
-from ..framework import Prop, generic_shrink_list
+from ..framework import LEAN, Prop, TieBroken, generic_shrink_list, write_if_changed
 
 # the property's transient conditions, as (class, code) pairs that PyMySQL can raise them as
 TRANSIENT = {
@@ -53,20 +58,28 @@ class C27(Prop):
                   'retried_transient, gives_up_on_other); the final database is the initial one with the body applied exactly once, or the initial '
                   'one if the wrapper gave up (no_partial_writes); the classifier retries exactly codes 1213/1205/2013/2003/1040 '
                   '(only_transient_retried) and each of them under the class PyMySQL 1.1.2 raises it as, 1205 under both classes '
-                  '(transient_list_retried, lock_wait_timeout_retried_both_classes). The model is tied to the real @transaction wrapper by runs '
+                  '(transient_list_retried, lock_wait_timeout_retried_both_classes); statements issued with a query_name run inside '
+                  'PrometheusSQLTimer, whose __aexit__ result is re-read from gear/gear/metrics.py on every run, and behave exactly like plain ones '
+                  '(instrumented_error_propagates, query_name_transparent, run_query_name_transparent). The model is tied to the real @transaction wrapper by runs '
                   'with a fault at every statement index x every error on every run.')
     level_note = ('Partial: the server side is the fake pool + minisql (rollback/commit semantics and what the server does on deadlock, lock wait '
                   'timeout and connection loss are assumptions listed below); PyMySQL error classes come from a shim reproducing 1.1.2 error_map; '
                   'interleaving of concurrent transactions and the behaviour of real aiomysql/MySQL beyond the listed assumptions are outside the claim.')
-    budget = {'quick': 1500, 'thorough': 30000}
+    budget = {'quick': 3200, 'thorough': 40000}
     search_budget = {'quick': 3000, 'thorough': 60000}
-    rule = ('case = (initial rows, body of upsert/insert/update statements over two tables, fault script per attempt = statement index x error); '
-            'every run contains the exhaustive layer {3 fixed bodies} x {every statement index incl. acquire, START TRANSACTION, COMMIT and one past} x '
-            '{every (class, code) of the error list} plus random multi-attempt sequences; non-trivial = at least one injected fault fired; distinct by full case')
+    rule = ('case = (initial rows, body of upsert/insert/update/select statements over two tables each issued through its Transaction.execute_* '
+            'method with or without a query_name, run inside one @transaction function or as a single Database.execute_* call, fault script per '
+            'attempt = statement index x error); every run contains the exhaustive layer {12 fixed bodies: plain, all-instrumented, mixed with reads, '
+            'single-statement Database calls} x {every statement index incl. acquire, START TRANSACTION, COMMIT and one past} x {every (class, code) of '
+            'the error list} plus random multi-attempt sequences (half of the faults aimed at body statements, half of the statements instrumented); '
+            'non-trivial = at least one injected fault fired; distinct by full case')
     trusted = [
         'harness/minisql (MiniDB, SEMANTICS list) as the MySQL server; harness/minisql/fakepool.py as aiomysql',
         'harness/shims/pymysql: exception hierarchy and error_map of PyMySQL 1.1.2 (reproduced; the library is absent)',
         'harness/aloop.py VLoop virtual clock for sleep_before_try',
+        'harness/extract of PrometheusSQLTimer.__aexit__ (props/c27.py aexit_result: straight-line body ending in `return <constant>`) and the Python '
+        'rule that a truthy __aexit__ result suppresses the exception; prometheus_client metric objects (Counter/Summary/.labels/.time) are '
+        'inert loader stubs whose __exit__ returns False -- the context manager gear.metrics.PrometheusSQLTimer itself is the real one',
     ]
     assumptions = [
         'the property\'s transient list is read as: deadlock 1213, lock wait timeout 1205 (OperationalError or InternalError), lost connection 2013, '
@@ -79,6 +92,53 @@ class C27(Prop):
         'a connection released with an open transaction is closed by the pool and rolled back by the server (aiomysql behaviour)',
         'faults are injected at: taking a connection, START TRANSACTION, every body statement, COMMIT -- not at the ROLLBACK the client issues after a failure',
     ]
+
+    # -- T tie: what PrometheusSQLTimer.__aexit__ returns --------------------------------------------
+    TIMER_FILE = 'gear/gear/metrics.py'
+
+    @staticmethod
+    def aexit_result(src):
+        """the constant `PrometheusSQLTimer.__aexit__` returns (None when it falls off the end).  Subset: a straight-line body of
+        assert / expression / assignment statements ending (or not) in `return <constant>`; anything else is not guessed."""
+        tree = ast.parse(src)
+        cls = [n for n in tree.body if isinstance(n, ast.ClassDef) and n.name == 'PrometheusSQLTimer']
+        if len(cls) != 1:
+            raise TieBroken('gear/gear/metrics.py: class PrometheusSQLTimer not found')
+        fns = [n for n in cls[0].body if isinstance(n, (ast.AsyncFunctionDef, ast.FunctionDef)) and n.name == '__aexit__']
+        if len(fns) != 1 or not isinstance(fns[0], ast.AsyncFunctionDef):
+            raise TieBroken('PrometheusSQLTimer.__aexit__ is not a single `async def`')
+        body = fns[0].body
+        for i, st in enumerate(body):
+            if isinstance(st, ast.Return):
+                if i != len(body) - 1:
+                    raise TieBroken('PrometheusSQLTimer.__aexit__: statements after a return')
+                if st.value is None:
+                    return None
+                if not isinstance(st.value, ast.Constant):
+                    raise TieBroken(f'PrometheusSQLTimer.__aexit__ returns a non-constant expression: {ast.unparse(st.value)}')
+                return st.value.value
+            if not isinstance(st, (ast.Assert, ast.Expr, ast.Assign, ast.AnnAssign, ast.AugAssign, ast.Pass)):
+                raise TieBroken(f'PrometheusSQLTimer.__aexit__: statement outside the translated subset: {ast.unparse(st)[:80]}')
+        return None
+
+    def generate(self, repo):
+        with open(os.path.join(repo, self.TIMER_FILE), encoding='utf-8') as f:
+            value = self.aexit_result(f.read())
+        truthy = bool(value)
+        src = f'''/-! GENERATED by harness/props/c27.py from the working tree — do not edit.
+  source: {self.TIMER_FILE}, `PrometheusSQLTimer.__aexit__` returns `{value!r}` on its only path
+-/
+namespace HailVerif.Generated.SqlTimer
+
+/-- truth value of the result of `PrometheusSQLTimer.__aexit__`.  Python semantics of `async with cm: block`: when `block`
+raises, the exception is suppressed iff `await cm.__aexit__(type, exc, tb)` is truthy. -/
+def aexitTruthy : Bool := {'true' if truthy else 'false'}
+
+end HailVerif.Generated.SqlTimer
+'''
+        changed = write_if_changed(os.path.join(LEAN, 'HailVerif', 'Generated', 'SqlTimer.lean'), src)
+        return [f'T: PrometheusSQLTimer.__aexit__ of {self.TIMER_FILE} returns {value!r} (aexitTruthy = {str(truthy).lower()}); '
+                f'generated file {"rewritten" if changed else "unchanged"}']
 
     # -- setup -------------------------------------------------------------------------------------
     def setup(self, repo):
@@ -113,10 +173,26 @@ class C27(Prop):
         return 'other:0'
 
     # -- cases -------------------------------------------------------------------------------------
+    # case = {'init': {key: value}, 'body': [[kind, key, delta(, named)]...], 'scripts': [None | [statement index, error]...](, 'mode': 'db')}
+    #   kind u = upsert through execute_many, i = execute_insertone, w = execute_update, r = SELECT through execute_and_fetchone,
+    #   a = SELECT through execute_and_fetchall; named = 1: the statement is issued with query_name=... (metrics-instrumented path)
+    #   mode 'tx' (default): the body runs inside one @transaction function; mode 'db': the body is ONE statement issued through the
+    #   retry-wrapped single-statement method Database.execute_many / execute_insertone / execute_update / execute_and_fetchone
     FIXED = [
         {'init': {'1': 5}, 'body': [['u', 1, 2], ['u', 107, 1], ['w', 1, 10]]},
         {'init': {'1': 5, '100': 1}, 'body': [['i', 2, 7], ['w', 100, -3]]},
         {'init': {}, 'body': [['u', 3, 4]]},
+        # the same shapes issued with a query_name, plus the two read flavours
+        {'init': {'1': 5}, 'body': [['u', 1, 2, 1], ['u', 107, 1, 1], ['w', 1, 10, 1]]},
+        {'init': {'1': 5, '100': 1}, 'body': [['i', 2, 7, 1], ['r', 2, 0, 1], ['w', 100, -3, 1], ['a', 100, 0, 1]]},
+        {'init': {'1': 5}, 'body': [['w', 1, 3], ['r', 1, 0], ['u', 1, 4, 1], ['a', 1, 0]]},
+        # single-statement Database.execute_* calls
+        {'init': {'1': 5}, 'body': [['w', 1, 10, 1]], 'mode': 'db'},
+        {'init': {'1': 5}, 'body': [['w', 1, 10]], 'mode': 'db'},
+        {'init': {'1': 5}, 'body': [['u', 1, 2, 1]], 'mode': 'db'},
+        {'init': {'1': 5}, 'body': [['u', 2, 2]], 'mode': 'db'},
+        {'init': {'1': 5}, 'body': [['r', 1, 0, 1]], 'mode': 'db'},
+        {'init': {'1': 5}, 'body': [['i', 2, 7]], 'mode': 'db'},
     ]
 
     def exhaustive(self):
@@ -126,12 +202,21 @@ class C27(Prop):
                 for err in ERRS:
                     yield {**fx, 'scripts': [[idx, err]]}
 
+    def random_stmt(self, rng, db_mode=False):
+        kind = rng.choice(['u', 'u', 'w', 'w', 'i', 'r'] if db_mode else ['u', 'u', 'w', 'w', 'i', 'r', 'a'])
+        st = [kind, rng.choice([1, 2, 3, 4, 100, 101, 102, 103]), 0 if kind in 'ra' else rng.randint(-9, 9)]
+        # Database.execute_insertone takes no query_name
+        if rng.random() < 0.5 and not (db_mode and kind == 'i'):
+            st.append(1)
+        return st
+
     def random_case(self, rng):
         init = {str(k): rng.randint(-5, 20) for k in rng.sample([1, 2, 3, 100, 101, 102], rng.randint(0, 4))}
-        body = []
-        for _ in range(rng.choice([0, 1, 2, 2, 3, 3, 4, 5])):
-            kind = rng.choice(['u', 'u', 'w', 'i'])
-            body.append([kind, rng.choice([1, 2, 3, 4, 100, 101, 102, 103]), rng.randint(-9, 9)])
+        db_mode = rng.random() < 0.15
+        if db_mode:
+            body = [self.random_stmt(rng, True)]
+        else:
+            body = [self.random_stmt(rng) for _ in range(rng.choice([0, 1, 2, 2, 3, 3, 4, 5]))]
         n = len(body)
         scripts = []
         for _ in range(rng.choice([0, 1, 1, 2, 2, 3, 4, 6])):
@@ -140,8 +225,13 @@ class C27(Prop):
                 scripts.append(None)
             else:
                 err = rng.choice(sorted(TRANSIENT)) if rng.random() < 0.75 else rng.choice(OTHER)
-                scripts.append([rng.randint(0, n + N_PRE + 1), err])
-        return {'init': init, 'body': body, 'scripts': scripts}
+                # half of the faults aim at a body statement (where the instrumented path lives), the rest anywhere incl. one past COMMIT
+                idx = rng.randint(N_PRE, n + N_PRE - 1) if n and rng.random() < 0.5 else rng.randint(0, n + N_PRE + 1)
+                scripts.append([idx, err])
+        c = {'init': init, 'body': body, 'scripts': scripts}
+        if db_mode:
+            c['mode'] = 'db'
+        return c
 
     def cases(self, rng, n, tier):
         ex = list(self.exhaustive())
@@ -157,7 +247,7 @@ class C27(Prop):
     # -- model -------------------------------------------------------------------------------------
     def model_lines(self, c):
         init = ' '.join(f'{k}={v}' for k, v in sorted(c['init'].items(), key=lambda kv: int(kv[0])))
-        body = ' '.join(['n'] * N_PRE + [f'{k}:{key}:{d}' for k, key, d in c['body']])
+        body = ' '.join(['n'] * N_PRE + [f'{st[0]}:{st[1]}:{st[2]}' + (':q' if len(st) > 3 and st[3] else '') for st in c['body']])
         scripts = ' '.join('-' if s is None else f'{s[0]}:{s[1]}' for s in c['scripts'])
         return [f'{init} | {body} | {scripts}']
 
@@ -188,6 +278,24 @@ class C27(Prop):
             return None
 
         out = {}
+        reads = []      # per attempt: what the SELECT statements of the body returned
+
+        def stmt(st):
+            """(method name, sql, args, query_name) of one body statement"""
+            kind, k, d = st[0], st[1], st[2]
+            qn = f'c27_{kind}' if len(st) > 3 and st[3] else None
+            t = table_of(k)
+            if kind == 'u':
+                return 'execute_many', f'INSERT INTO {t} (k, v) VALUES (%s, %s) ON DUPLICATE KEY UPDATE v = v + VALUES(v)', [(k, d)], qn
+            if kind == 'i':
+                return 'execute_insertone', f'INSERT INTO {t} (k, v) VALUES (%s, %s)', (k, d), qn
+            if kind == 'w':
+                return 'execute_update', f'UPDATE {t} SET v = v + %s WHERE k = %s', (d, k), qn
+            if kind == 'r':
+                return 'execute_and_fetchone', f'SELECT v FROM {t} WHERE k = %s', (k,), qn
+            if kind == 'a':
+                return 'execute_and_fetchall', f'SELECT v FROM {t} WHERE k = %s', (k,), qn
+            raise ValueError(kind)
 
         async def main():
             g = await fakepool.make_database(db)
@@ -195,18 +303,38 @@ class C27(Prop):
 
             @gd.transaction(g)
             async def op(tx):
-                for kind, k, d in c['body']:
-                    t = table_of(k)
-                    if kind == 'u':
-                        await tx.execute_many(f'INSERT INTO {t} (k, v) VALUES (%s, %s) ON DUPLICATE KEY UPDATE v = v + VALUES(v)', [(k, d)])
-                    elif kind == 'i':
-                        await tx.execute_insertone(f'INSERT INTO {t} (k, v) VALUES (%s, %s)', (k, d))
+                mine = []
+                reads.append(mine)
+                for st in c['body']:
+                    meth, sql, args, qn = stmt(st)
+                    kw = {} if qn is None else {'query_name': qn}
+                    if meth == 'execute_and_fetchall':
+                        mine.append([r['v'] async for r in tx.execute_and_fetchall(sql, args, **kw)])
+                    elif meth == 'execute_and_fetchone':
+                        r = await tx.execute_and_fetchone(sql, args, **kw)
+                        mine.append([] if r is None else [r['v']])
                     else:
-                        await tx.execute_update(f'UPDATE {t} SET v = v + %s WHERE k = %s', (d, k))
+                        await getattr(tx, meth)(sql, args, **kw)
+                return 'done'
+
+            async def single():
+                """mode 'db': the one statement through the retry-wrapped Database method of the same name"""
+                (st,) = c['body']
+                meth, sql, args, qn = stmt(st)
+                if meth == 'execute_insertone':
+                    assert qn is None
+                    await g.execute_insertone(sql, args)
+                elif meth == 'execute_and_fetchone':
+                    r = await g.execute_and_fetchone(sql, args, qn)
+                    reads.append([[] if r is None else [r['v']]])
+                elif meth == 'execute_many':
+                    await g.execute_many(sql, args, query_name=qn)
+                else:
+                    await g.execute_update(sql, args, qn)
                 return 'done'
 
             try:
-                r = await op()
+                r = await (single() if c.get('mode') == 'db' else op())
                 assert r == 'done'
                 out['result'] = 'ok'
             except Exception as e:   # noqa: BLE001
@@ -231,6 +359,7 @@ class C27(Prop):
             for r in db.tables[t]:
                 rows[r['k']] = r['v']
         out['db'] = rows
+        out['reads'] = reads[-1] if reads else []
         return out
 
     def impl(self, c):
@@ -240,16 +369,20 @@ class C27(Prop):
 
     # -- oracle --------------------------------------------------------------------------------------
     @staticmethod
-    def apply_body(init, body):
-        """the body applied once to the initial rows: (rows, None) or (None, 'integ:1062')"""
+    def apply_body(init, body, reads=None):
+        """the body applied once to the initial rows: (rows, None) or (None, 'integ:1062'); `reads` collects what its SELECTs see"""
         d = {int(k): v for k, v in init.items()}
-        for kind, k, x in body:
+        for st in body:
+            kind, k, x = st[0], st[1], st[2]
             if kind == 'u':
                 d[k] = d.get(k, 0) + x
             elif kind == 'i':
                 if k in d:
                     return None, 'integ:1062'
                 d[k] = x
+            elif kind in 'ra':
+                if reads is not None:
+                    reads.append([d[k]] if k in d else [])
             elif k in d:
                 d[k] = d[k] + x
         return d, None
@@ -273,7 +406,8 @@ class C27(Prop):
                 return f'the operation was not retried after transient error {err} at statement {idx} of attempt {n} (result {o["result"]})'
             if o['result'] != 'err:' + err:
                 return f'attempt {n} failed with {err} but the caller saw {o["result"]}'
-        expect, own_err = self.apply_body(c['init'], c['body'])
+        want_reads = []
+        expect, own_err = self.apply_body(c['init'], c['body'], want_reads)
         if n not in fired:
             want = 'ok' if own_err is None else 'err:' + own_err
             if o['result'] != want:
@@ -282,6 +416,9 @@ class C27(Prop):
         if o['result'] == 'ok':
             if o['db'] != expect:
                 return f'after success the tables are {o["db"]}, expected the body applied exactly once: {expect} (attempts={n}, fired={o["fired"]})'
+            if o['reads'] != want_reads:
+                return (f'after success the SELECTs of the committed attempt returned {o["reads"]}, one execution of the body on the initial rows '
+                        f'reads {want_reads} (attempts={n}, fired={o["fired"]})')
         elif o['db'] != init:
             return f'after giving up with {o["result"]} the tables are {o["db"]}, expected the initial rows {init} (fired={o["fired"]})'
         return None
@@ -299,6 +436,14 @@ class C27(Prop):
                 where = 'acquire' if s[0] == 0 else 'start' if s[0] == 1 else 'commit' if s[0] == n + N_PRE else 'beyond' if s[0] > n + N_PRE else 'body'
                 tags.append('fault@' + where)
                 tags.append('err=' + s[1])
+        n = len(c['body'])
+        tags.append('mode=' + c.get('mode', 'tx'))
+        for s in c['scripts']:
+            if s is not None and N_PRE <= s[0] < n + N_PRE:
+                st = c['body'][s[0] - N_PRE]
+                tags.append('fault@body:' + ('query_name' if len(st) > 3 and st[3] else 'plain') + ':' + st[0])
+        if any(len(st) > 3 and st[3] for st in c['body']):
+            tags.append('has-query_name')
         nontrivial = any(s is not None and s[0] <= len(c['body']) + N_PRE for s in c['scripts'])
         return (json.dumps(c, sort_keys=True) if nontrivial else None, tags)
 
@@ -311,6 +456,11 @@ class C27(Prop):
         if fails(cur):
             cur['scripts'] = generic_shrink_list(cur['scripts'], lambda s: fails({**cur, 'scripts': s}))
             cur['body'] = generic_shrink_list(cur['body'], lambda b: fails({**cur, 'body': b})) if len(cur['body']) > 1 else cur['body']
+            for i, st in enumerate(cur['body']):     # drop query_name flags that do not matter
+                if len(st) > 3:
+                    trial = {**cur, 'body': cur['body'][:i] + [st[:3]] + cur['body'][i + 1:]}
+                    if fails(trial):
+                        cur = trial
             for k in list(cur['init']):
                 trial = {**cur, 'init': {a: b for a, b in cur['init'].items() if a != k}}
                 if fails(trial):
